@@ -208,6 +208,9 @@ def b_dict(I, x=None, **kw):
 
 
 def b_set(I, x=()):
+    h = getattr(x, "pyvc_toset", None)
+    if h is not None:
+        return h(I)
     items = I.concrete_items(x)
     if items is None:
         raise Unsupported("set() of symbolic iterable")
@@ -293,6 +296,9 @@ def b_all(I, x):
 
 
 def b_sorted(I, x, key=None, reverse=False):
+    h = getattr(x, "pyvc_sorted", None)
+    if h is not None and key is None and not reverse:
+        return h(I)
     items = I.concrete_items(x)
     if items is None or any(is_z3(i) for i in items):
         raise Unsupported("sorted over symbolic values")
